@@ -237,6 +237,11 @@ def ampsf(rng, fails, stats, n):
             if numpy.dtype(dt).kind == 'i' and not numpy.array_equal(back, raw[sub]):
                 fails.append({'kind': 'ampsf', 'msg': f'AmpSF encode(decode(x)) != x for integer samples, vectors [{a}:{b}:{st}]', 'case': case})
                 break
+            if numpy.dtype(dt).kind == 'f' and (numpy.shape(back) != raw[sub].shape or
+                                               not numpy.allclose(numpy.asarray(back, dtype='float64'), raw[sub].astype('float64'), rtol=4e-6, atol=1e-6)):
+                # CF8: the scale factor must be undone on encoding as well (exact up to float32 rounding of v*sf/sf)
+                fails.append({'kind': 'ampsf', 'msg': f'AmpSF encode(decode(x)) differs from x beyond float32 rounding for float samples, vectors [{a}:{b}:{st}]', 'case': case})
+                break
 
 
 # ----------------------------------------------------------------------------------------------------------------------
